@@ -166,6 +166,28 @@ def acct_scenario(rng, size='quick', **over):
     return lines
 
 
+def tie_depth_scenario(rng, kind='c01', size='quick', **over):
+    """C01/C02: a timestamp tie between two closed blobs with on-disk indexes of very different depth, on the
+    current-thread runtime (every index read is a blocking task there, so the shallow look-up of the OLDER blob
+    finishes first): the newer blob must still win the tie"""
+    klen = rng.choice([503, 1000])
+    c, line = cfg_line(rng, key=klen, dup=1, rt='ct', bloom=rng.choice(['off', '100,2,1000']), **over)
+    ts = rng.choice(TS_POOL)
+    base = rng.randrange(1, 50)
+    k = nat_key(klen, base + 2 * rng.randrange(0, 40))
+    lines = [line, 'states', f'w {k} {ts} - 3 1', 'states', 'close_active', 'states']
+    seed = 2
+    fillers = [nat_key(klen, base + 2 * i + 1) for i in range(rng.choice([30, 60]))]
+    for f in fillers:
+        lines += [f'w {f} {rng.choice(TS_POOL)} - 0 {seed % 250 + 1}', 'states']
+        seed += 1
+    lines += [f'w {k} {ts} - 3 {seed % 250 + 1}', 'states', 'close_active', 'states', 'settle', 'res']
+    q = [f'r {k}', f'c {k}'] if kind == 'c01' else [f'ram {k}', f'ra {k}']
+    lines += q * 4
+    lines += ['restart', 'states'] + q * 2
+    return lines
+
+
 def nontrivial_kv(lines):
     """some key has >= 2 versions in >= 2 blobs, with a timestamp tie or a marker that is not the newest"""
     per_key = {}
@@ -496,6 +518,8 @@ def index_scenario(rng, size='quick', **over):
         if klen >= 500:
             targets = [1, 2, fan - 1, fan, fan + 1, 2 * fan - 1, 2 * fan, 2 * fan + 1, fan * fan - 1, fan * fan,
                        fan * fan + 1, fan * fan + fan, 2 * fan * fan, fan ** 3]
+            if klen < 1000:
+                targets = targets[:-2]      # 7 headers per leaf: keep the scripts (and the model run) small
         else:
             targets = [fan - 1, fan, fan + 1, 2 * fan] if size != 'quick' else [fan - 1, fan, fan, fan + 1]
         leaves = rng.choice(targets)
